@@ -152,6 +152,16 @@ def run [Inhabited ν] (t : Tensor ν α) : List (Op ν α) → Tensor ν α
   | [] => t
   | op :: ops => run (exec t op).state ops
 
+/-! ### a setter of a view adaptor called with invalid arguments: `TensorRename::set_names` -/
+
+/-- `TensorRename::set_names(dimensions)`: `has_duplicates_names(&dimensions)` panics before the
+    assignment, so the names the view had survive; returns the names afterwards and whether the
+    call panicked.  (`[Dimension; D]` fixes the arity; a list of another length is not a call.) -/
+def renameSetNames (names new : List ν) : List ν × Bool :=
+  if new.length ≠ names.length then (names, true)
+  else if hasDuplicates new then (names, true)
+  else (new, false)
+
 /-! ### the leaf accesses of an iteration -/
 
 /-- one leaf access as the monitor records it: storage offset (`none`: the unchecked accessor
